@@ -589,3 +589,95 @@ theorem evaluate_sound (cands constraints : List Str) (dranges : List DateRange)
       rw [hps] at htm
       exact ⟨tm, ms, tr0, htr0, by simpa [dateTimex] using htm, hms, h1, h2'⟩
 
+
+/-- with pure date-range constraints `evaluate` of non-duration candidates is its date-range stage -/
+theorem evaluate_dateOnly_eq (cands cs : List Str) (ranges : List DateRange) (h : DateOnly cs ranges)
+    (hk : ∀ c ∈ cands, (infer (parse genCfg c)).duration = false) (fuel : Nat) :
+    evaluate genCfg (fuel + 1) cands cs =
+      resolveByDateRangeConstraints genCfg (fuel + 1) cands (cs.map (parse genCfg)) := by
+  unfold evaluate
+  dsimp only
+  rw [resolveDurations_eq, resolveDurations_nodur genCfg _ cands [] hk]
+  simp only [List.nil_append, bind, Except.bind]
+  cases hb : resolveByDateRangeConstraints genCfg (fuel + 1) cands (cs.map (parse genCfg)) with
+  | error e => rfl
+  | ok b =>
+    simp only
+    rw [resolveByTimeConstraints_none genCfg b _ (fun t ht => (h.ty t ht).2.1)]
+    simp only
+    rw [resolveByTimerangeConstraints_none genCfg fuel b _ (fun t ht => (h.ty t ht).2.2)]
+
+/-- C15 **evaluate_complete_monthday** — a single pure date-range constraint `[s, e)` and a month-day candidate
+(`XXXX-MM-DD`, with or without a time of day): for **every** year in which that calendar date exists and lies in the
+range, its TIMEX (`YYYY-MM-DD` + the candidate's time text) is in the result. -/
+theorem evaluate_complete_monthday (cand : Str) (m dd : Nat) (tmo : Option Time)
+    (hp : parse genCfg cand = { month := some (.int m), dayOfMonth := some (.int dd), time := tmo })
+    (c : Str) (r : DateRange) (h : DateOnly [c] [r]) (fuel : Nat) (out : List Str)
+    (hout : evaluate genCfg (fuel + 1) [cand] [c] = .ok out) :
+    ∀ yy : Nat, (⟨yy, m, dd⟩ : Date).valid = true → r.s ≤ (⟨yy, m, dd⟩ : Date).ord → (⟨yy, m, dd⟩ : Date).ord < r.e →
+      isoDateStr ⟨yy, m, dd⟩ ++ fmtTime tmo ∈ out := by
+  have hnd : ∀ c' ∈ [cand], (infer (parse genCfg c')).duration = false := by
+    intro c' hc'; simp at hc'; subst hc'; rw [hp]; simp [infer, isDuration]
+  rw [evaluate_dateOnly_eq [cand] [c] [r] h hnd fuel] at hout
+  have h1 : (([c].map (parse genCfg)).filter fun t => (infer t).daterange).mapM daterangeFromTimex = .ok [r] := by
+    rw [filter_all _ _ (fun t ht => (h.ty t ht).1), h.rng]
+  have hc : collapseDates (fuel + 1) [r] = .ok [r] := by
+    simp [collapseDates, collapseLoop, innerCollapse, sortBy, insertBy, pure, Except.pure]
+  have hb : 1 ≤ r.s ∧ r.s ≤ maxOrd ∧ 1 ≤ r.e ∧ r.e ≤ maxOrd := by
+    obtain ⟨t, _, ht⟩ := (mapM_ok_mem _ _ _ h.rng r).mp (by simp)
+    exact daterangeFromTimex_bounds t r ht
+  intro yy hv hs he
+  have hd : dateFromTimex { ({ month := some (.int m), dayOfMonth := some (.int dd), time := tmo } : Timex) with
+      year := some (.int (yy : Int)) } = .ok ⟨yy, m, dd⟩ := by
+    simp [dateFromTimex, toInt_int, mkDate, hv, pure, Except.pure]
+  have hf : formatT { ({ month := some (.int m), dayOfMonth := some (.int dd), time := tmo } : Timex) with
+      year := some (.int (yy : Int)) } = .ok (isoDateStr ⟨yy, m, dd⟩ ++ fmtTime tmo) := by
+    have := format_dateTimex ⟨yy, m, dd⟩ hv tmo
+    simpa [dateTimex, Timex.fromDate] using this
+  cases hx : resolveDateAgainstConstraint { month := some (.int m), dayOfMonth := some (.int dd), time := tmo } r with
+  | error e =>
+    exfalso
+    unfold resolveByDateRangeConstraints at hout
+    rw [h1] at hout
+    simp only [bind, Except.bind, hc, List.isEmpty_cons, Bool.false_eq_true, if_false, List.foldlM, hp, hx] at hout
+    cases hout
+  | ok x =>
+    refine (dateStage_mem genCfg (fuel + 1) _ _ out [r] [r] h1 hc rfl hout _).mpr
+      ⟨cand, by simp, r, by simp, x, by rw [hp]; exact hx, ?_⟩
+    refine resolveMonthDay_complete _ r x hb.1 hb.2.2.2 (by simp [andChainNotNone]) hx yy ⟨yy, m, dd⟩ _ hd rfl hs he hf ?_
+    simp [isoDateStr, d4]
+
+/-- the hypotheses of `evaluate_sound` are satisfiable: candidates `XXXX-WXX-3T09`, `XXXX-01-15`, `T09`; constraints
+`2020-01` and `(T08,T12,PT4H)` -/
+example : EvalHyp
+    [[88, 88, 88, 88, 45, 87, 88, 88, 45, 51, 84, 48, 57], [88, 88, 88, 88, 45, 48, 49, 45, 49, 53], [84, 48, 57]]
+    [[50, 48, 50, 48, 45, 48, 49], [40, 84, 48, 56, 44, 84, 49, 50, 44, 80, 84, 52, 72, 41]]
+    [⟨(⟨2020, 1, 1⟩ : Date).ord, (⟨2020, 2, 1⟩ : Date).ord⟩] [⟨28800000, 43200000⟩] := by
+  have p1 : parse genCfg [88, 88, 88, 88, 45, 87, 88, 88, 45, 51, 84, 48, 57] =
+      { dayOfWeek := some (.int 3), time := some ⟨.int 9, .int 0, .int 0⟩ } := by decide
+  have p2 : parse genCfg [88, 88, 88, 88, 45, 48, 49, 45, 49, 53] =
+      { month := some (.int 1), dayOfMonth := some (.int 15), time := none } := by decide
+  have p3 : parse genCfg [84, 48, 57] = { time := some ⟨.int 9, .int 0, .int 0⟩ } := by decide
+  have c9 : ClockT ⟨.int 9, .int 0, .int 0⟩ := ⟨9, 0, 0, by omega, by omega, by omega, rfl⟩
+  refine ⟨?_, ?_, by decide, by simp, by decide, ?_⟩
+  · intro c hc
+    simp only [List.mem_cons, List.not_mem_nil, or_false] at hc
+    rcases hc with rfl | rfl | rfl
+    · rw [p1]; exact CandKind.weekday 3 _
+    · rw [p2]; exact CandKind.monthday 1 15 none
+    · rw [p3]; exact CandKind.timeonly _
+  · intro c hc tm htm
+    simp only [List.mem_cons, List.not_mem_nil, or_false] at hc
+    rcases hc with rfl | rfl | rfl
+    · rw [p1] at htm; cases htm; exact c9
+    · rw [p2] at htm; cases htm
+    · rw [p3] at htm; cases htm; exact c9
+  · intro t ht hti
+    simp only [List.map_cons, List.map_nil, List.mem_cons, List.not_mem_nil, or_false] at ht
+    rcases ht with rfl | rfl
+    · exact absurd hti (by decide)
+    · have : timeFromTimex (parse genCfg [40, 84, 48, 56, 44, 84, 49, 50, 44, 80, 84, 52, 72, 41]) =
+          ⟨.int 8, .int 0, .int 0⟩ := by decide
+      rw [this]; exact ⟨8, 0, 0, by omega, by omega, by omega, rfl⟩
+
+end RTV.Timex
